@@ -63,7 +63,7 @@ structure CoreFacts (p : Program) (ff0 : Bool) (s : RS) (succ : Bool) : Prop whe
   logIds  : s.log.filterMap stageEvId = s.execd.map Stage.id
   execdIn : ∀ st ∈ s.execd, st ∈ allStages p
   ff      : s.ff = (ff0 || s.execd.any hasExpect)
-  excs    : s.excs = s.execd.flatMap (stageExcs p) ++ (if setUpOk p && s.ff then [forcedFailure] else [])
+  excs    : s.excs = s.execd.flatMap (stageExcs p) ++ (if s.ff then [forcedFailure] else [])
   onExcs  : s.log.filterMap onExcEv = handlerCalls p.nOnExc s.excs
   stack   : s.stack = []
   succ    : succ = true ↔ s.excs = []
@@ -100,18 +100,48 @@ theorem runCore_facts (p : Program) (ff0 : Bool) (hwf : wf p = true) (hskip : p.
     have ic := Inv.cleanups hwf s1 i1
     obtain ⟨l, hl, hp⟩ := runCleanups_popAll hwf s1 i1
     obtain ⟨lx, hlx⟩ := runCleanups_excs_prefix s1
-    refine ⟨ic.logPure, ic.logIds, ic.execdIn, ic.ff, ?_, ic.onExcs, runCleanups_stack s1, ?_, ?_⟩
-    · rw [ic.excs]; simp [hsok]
-    · simp only [Bool.false_eq_true, false_iff]
-      rw [hlx, e1.excs]
-      have : excsD false p.setUp.term ≠ [] := by
-        apply excsD_ne_nil; right
-        intro h; simp [setUpOk, h, termExcs] at hsok
-      simp [this]
-    · simp only [cStages, hskip, Option.isSome_none, Bool.false_eq_true, if_false, hsok, stageIds_eq, ic.logIds, hl, hx1]
+    have hne : excsD false p.setUp.term ≠ [] := by
+      apply excsD_ne_nil; right
+      intro h; simp [setUpOk, h, termExcs] at hsok
+    have hst : Spec.C01.cStages p ff0 ⟨(runCleanups s1).log, none, (runCleanups s1).ff, 0, []⟩ = true := by
+      simp only [cStages, hskip, Option.isSome_none, Bool.false_eq_true, if_false, hsok, stageIds_eq, ic.logIds, hl, hx1]
       simp only [List.cons_append, List.nil_append, List.map_cons, beq_self_eq_true, Bool.true_and]
       have := hp (l.length + 1) (by omega)
       simpa [e1.sids, initRS, stackIds, regIds_eq] using this
+    split
+    · -- forced failure: an expectation failed before setUp gave up
+      rename_i hff
+      refine ⟨?_, ?_, ?_, ?_, ?_, ?_, ?_, ?_, ?_⟩
+      · intro x hx
+        rw [got_log] at hx
+        simp only [List.mem_append] at hx
+        rcases hx with hx | hx
+        · exact ic.logPure x hx
+        · exact onExcCalls_pure _ _ x hx
+      · rw [got_log, got_execd, List.filterMap_append, ic.logIds]
+        have := filterMap_stage_onExcCalls (runCleanups s1).nOnExc [forcedFailure]
+        simp only [List.flatMap_cons, List.flatMap_nil, List.append_nil] at this
+        rw [this]; simp
+      · rw [got_execd]; exact ic.execdIn
+      · rw [got_ff, got_execd]; exact ic.ff
+      · rw [got_excs, got_execd, got_ff, ic.excs]; simp [hff]
+      · rw [got_log, got_excs, List.filterMap_append, ic.onExcs, handlerCalls_append, ic.nOnExc]
+        have := filterMap_onExc_onExcCalls p.nOnExc [forcedFailure]
+        simp only [List.flatMap_cons, List.flatMap_nil, List.append_nil] at this
+        rw [this]
+      · rw [got_stack']; exact runCleanups_stack s1
+      · simp
+      · simpa [cStages, stageIds_eq, List.filterMap_append, filterMap_stage_onExcCalls,
+          show (onExcCalls (runCleanups s1).nOnExc forcedFailure).filterMap stageEvId = [] from by
+            have := filterMap_stage_onExcCalls (runCleanups s1).nOnExc [forcedFailure]
+            simpa using this] using hst
+    · rename_i hff
+      simp only [Bool.not_eq_true] at hff
+      refine ⟨ic.logPure, ic.logIds, ic.execdIn, ic.ff, ?_, ic.onExcs, runCleanups_stack s1, ?_, hst⟩
+      · rw [ic.excs]; simp [hff]
+      · simp only [Bool.false_eq_true, false_iff]
+        rw [hlx, e1.excs]
+        simp [hne]
   | true =>
     subst hok1
     simp only [hsok, if_true]
@@ -159,7 +189,7 @@ theorem runCore_facts (p : Program) (ff0 : Bool) (hwf : wf p = true) (hskip : p.
         rw [this]; simp
       · rw [got_execd]; exact ic.execdIn
       · rw [got_ff, got_execd]; exact ic.ff
-      · rw [got_excs, got_execd, got_ff, ic.excs]; simp [hsok, hff]
+      · rw [got_excs, got_execd, got_ff, ic.excs]; simp [hff]
       · rw [got_log, got_excs, List.filterMap_append, ic.onExcs, handlerCalls_append, ic.nOnExc]
         have := filterMap_onExc_onExcCalls p.nOnExc [forcedFailure]
         simp only [List.flatMap_cons, List.flatMap_nil, List.append_nil] at this
